@@ -86,8 +86,11 @@ Hz(n) ==
     [] n = "badcdend" -> [in |-> "cm", pre |-> <<S("a", 1)>>, hz |-> <<S("]]>", 3)>>, post |-> <<S("b", 1)>>, wf |-> FALSE, line |-> 1, ev |-> <<>>]
     [] n = "badetag" -> [in |-> "cm", pre |-> <<S("<e>", 3)>>, hz |-> <<S("</f>", 4)>>, post |-> <<>>, wf |-> FALSE, line |-> 1, ev |-> <<>>]
     [] n = "badbyte" -> [in |-> "cm", pre |-> <<S("a", 1)>>, hz |-> <<Byte(255)>>, post |-> <<S("b", 1)>>, wf |-> FALSE, line |-> 1, ev |-> <<>>]
+    [] n = "trunc"   -> [in |-> "cm", pre |-> <<S("a", 1)>>, hz |-> <<S("b", 1)>>, post |-> <<>>, wf |-> FALSE, line |-> 1, ev |-> <<>>]   \* + TailOf: the entity ends inside a sequence
     [] n = "badcont" -> [in |-> "cm", pre |-> <<S("a", 1)>>, hz |-> <<Byte(226), Byte(130), S("b", 1)>>, post |-> <<>>, wf |-> FALSE, line |-> 1, ev |-> <<>>]
 
+(* bytes after the end of the root element *)
+TailOf(n) == IF n = "trunc" THEN <<Byte(226), Byte(130)>> ELSE <<>>
 Root == "rootelementname"
 Open == <<S("<rootelementname>", 17)>>
 Close == <<S("</rootelementname>", 18)>>
@@ -104,10 +107,10 @@ Layout(h, bk, off) ==
       w == IF byteTarget THEN Utf8Len(PadCp(bk)) ELSE 1
   IN [n |-> room \div w, filler |-> room % w]
 
-Doc(h, bk, off) ==
+Doc(h, bk, off, tail) ==
   LET ly == Layout(h, bk, off)
       pad == (IF ly.filler > 0 THEN <<S("y", 1)>> ELSE <<>>) \o <<Un(PadCp(bk), ly.n)>>
-  IN [pieces |-> Open \o COpen(h.in) \o pad \o CClose(h.in) \o h.pre \o h.hz \o h.post \o Close,
+  IN [pieces |-> Open \o COpen(h.in) \o pad \o CClose(h.in) \o h.pre \o h.hz \o h.post \o Close \o tail,
       pad |-> pad,
       hzByte |-> SumB(Open \o COpen(h.in) \o pad \o CClose(h.in) \o h.pre),       \* 0-based offset of the hazard's first byte
       hzChar |-> SumC(Open \o COpen(h.in) \o pad \o CClose(h.in) \o h.pre),
@@ -129,7 +132,7 @@ Deliveries == <<<<"mem", 0, <<>>>>, <<"one", 16, <<>>>>, <<"all1", 0, <<>>>>>>
 
 Case(hn, bk, off) ==
   LET h == Hz(hn)
-      d == Doc(h, bk, off)
+      d == Doc(h, bk, off, TailOf(hn))
   IN [hz |-> hn, bk |-> bk, off |-> off, wf |-> h.wf, line |-> h.line, doc |-> d.pieces,
       hzByte |-> d.hzByte, hzChar |-> d.hzChar, hzBytes |-> d.hzBytes, hzChars |-> d.hzChars,
       exp |-> Expected(h, d), dl |-> Deliveries]
@@ -140,6 +143,6 @@ Next == FALSE /\ UNCHANGED c
 Spec == Init /\ [][Next]_c
 Emit == PrintT(ToJson(Case(c[1], c[2], c[3])))
 (* sanity of the table itself: the layout puts the hazard where it was asked to be *)
-Placed == LET h == Hz(c[1]) d == Doc(h, c[2], c[3]) IN
+Placed == LET h == Hz(c[1]) d == Doc(h, c[2], c[3], <<>>) IN
           IF c[2] \in {"b48", "m48"} THEN d.hzByte = 49152 + c[3] ELSE d.hzChar = 16384 + c[3]
 =============================================================================
